@@ -207,8 +207,8 @@ Due(p) ==
     /\ pst[p] = "idle"
     /\ IF beh[p].k = "silent" THEN clock = "late" \/ pc = "done" ELSE ph[p] = clock
 
-Respond(p) ==
-    /\ Due(p) /\ Quiescent
+\* the provider goroutine hands its node's answer to the collector (or drops it)
+Send(p) ==
     /\ IF Acceptable(p)
        THEN /\ errCh' = errCh
             /\ IF Cardinality(respCh) < cap
@@ -223,6 +223,8 @@ Respond(p) ==
        ELSE respCh' = respCh /\ errCh' = errCh /\ pst' = [pst EXCEPT ![p] = "done"]
     /\ UNCHANGED <<variant, n, thr, cap, beh, ph, clock, pc, responded, errored, timedOut, softTimedOut, best, counts,
                    rcvd, hardSel, steps, result>>
+
+Respond(p) == Due(p) /\ Quiescent /\ Send(p)
 
 NoneDue(phase) == \A p \in Provs : ~(pst[p] = "idle" /\ beh[p].k # "silent" /\ ph[p] = phase)
 
